@@ -344,6 +344,10 @@ impl Disk
                 count += 1;
             }
             ans.fs_type = u16::to_le_bytes(ftype).to_vec();
+            if u16::from_le_bytes(entry.bytes_remaining) as usize > BLOCK_SIZE*ans.chunks.len() {
+                log::error!("bytes remaining field exceeds the file's blocks");
+                return Err(Box::new(Error::BadFormat));
+            }
             ans.eof = u32::to_le_bytes(BLOCK_SIZE as u32*ans.chunks.len() as u32 - u16::from_le_bytes(entry.bytes_remaining) as u32).to_vec();
             ans.modified = entry.mod_date.to_vec();
             return Ok(ans);
